@@ -96,7 +96,6 @@ func runTranscripts(protocol string, ops []trOp, rec *hx.Rec) (impl, want []stri
 	var slot banderwagon.Element // a reused variable for point appends
 	for i, op := range ops {
 		label := hx.BytesHex(op.Label)
-		labelCopy := append([]byte(nil), label...)
 		var perr error
 		switch op.Op {
 		case "sep":
@@ -107,6 +106,9 @@ func runTranscripts(protocol string, ops []trOp, rec *hx.Rec) (impl, want []stri
 			msgCopy := append([]byte(nil), msg...)
 			perr = hx.Try(func() { tr.AppendMessage(msg, label) })
 			rt.AppendMessage(msgCopy, label)
+			for j := range msg { // scratch buffer reused by the caller after the call
+				msg[j] = ^msg[j]
+			}
 		case "scalar":
 			v := op.S.value()
 			f := hx.FrFromBig(v)
@@ -137,7 +139,10 @@ func runTranscripts(protocol string, ops []trOp, rec *hx.Rec) (impl, want []stri
 		if perr != nil {
 			return nil, nil, 0, fmt.Errorf("op %d (%s): %w", i, op.Op, perr)
 		}
-		label = labelCopy
+		// the caller reuses its buffers: what was absorbed must be the bytes at call time, not a retained slice
+		for j := range label {
+			label[j] ^= 0xA5
+		}
 		if rt.Pending() > maxPending {
 			maxPending = rt.Pending()
 		}
